@@ -324,6 +324,101 @@ theorem c16_selection_aligned (get : Nat → Except Err Table) (k c : Nat) (sel 
     exact ⟨rfl, hc2⟩
   · cases hpe
 
+/-! ### shared locations: arrays handed in by the caller -/
+
+/-- **Rebinding operations never change an existing array.**  In *any* state of the heap layer — slots may share
+locations with each other, with other containers, with arrays the caller holds — every operation except
+`set_selection` (sort, append, selections, copies, dtype conversion, renaming, removing, adding or assigning a
+field, also with a handed-in array that is already a column elsewhere) leaves every existing heap cell as it is,
+and rebinds the slots of at most one existing container.  So every other container, and every array object the
+caller got from `__getitem__` or handed in, reads the same afterwards. -/
+theorem c16_rebind_ops_frame (s : St) (xop : XOp) (hx : xop.writesThrough = false) :
+    (∀ l, l < s.heap.length → (stepX s xop).1.heap[l]? = s.heap[l]?) ∧
+    ∃ c, ∀ i, i ≠ c → i < s.conts.length → (stepX s xop).1.conts[i]? = s.conts[i]? := by
+  cases xop with
+  | base op =>
+    have hns : ¬ IsSetSel op := by
+      intro h; cases op <;> simp [IsSetSel] at h; simp [XOp.writesThrough] at hx
+    exact ⟨fun l hl => stepH_heap_frame s op l hl (Or.inl hns), stepH_conts_frame s op⟩
+  | appendFieldFrom c n d m =>
+    refine ⟨fun l _ => ?_, c, fun i hic _ => ?_⟩
+    · simp only [stepX]
+      split
+      · split
+        · rfl
+        · rw [bindNew_heap]
+      · rfl
+    · simp only [stepX]
+      split
+      · split
+        · rfl
+        · exact bindNew_conts _ _ _ _ _ _ hic
+      · rfl
+  | setItemFrom c n d m =>
+    refine ⟨fun l _ => ?_, c, fun i hic _ => ?_⟩
+    · simp only [stepX]
+      split
+      · split
+        · rfl
+        · split
+          · split
+            · rfl
+            · split <;> rfl
+          · rw [bindNew_heap]
+      · rfl
+    · simp only [stepX]
+      split
+      · split
+        · rfl
+        · split
+          · split
+            · rfl
+            · split
+              · rfl
+              · simp only [List.getElem?_set_ne (Ne.symm hic)]
+          · exact bindNew_conts _ _ _ _ _ _ hic
+      · rfl
+  | newShared d m =>
+    refine ⟨fun l _ => ?_, 0, fun i _ hi => ?_⟩
+    · simp only [stepX]
+      split
+      · rfl
+      · split
+        · rfl
+        · split <;> rfl
+    · simp only [stepX]
+      split
+      · rfl
+      · split
+        · rfl
+        · split
+          · rfl
+          · simp only [List.getElem?_append_left hi]
+
+/-- **`set_selection` writes through its own columns only**: in any state, a heap cell that is not bound in the
+target container is unchanged — but every slot (of any container, or the caller) bound to a written location
+sees the new content. -/
+theorem c16_set_selection_writes_target_only (s : St) (c : Nat) (sel : Sel) (d : Nat) (l : Nat) (hl : l < s.heap.length)
+    (hnot : ∀ cont n, s.conts[c]? = some cont → (n, l) ∉ cont.fields) :
+    (stepX s (.base (.setSel c sel d))).1.heap[l]? = s.heap[l]? := by
+  refine stepH_heap_frame s _ l hl (Or.inr ?_)
+  intro c' sel' d' cont n heq hc
+  cases heq
+  exact hnot cont n hc
+
+/-- non-vacuity / what sharing means: `t.append_field(2, t[0])` binds two slots to one location; an in-place
+assignment through slot 0 is seen through slot 2 and through the array the caller holds (`newShared`), whereas
+sorting rebinds the slots of `t` and leaves the caller's array alone -/
+example :
+    let s0 := runX ⟨[], []⟩ [.base (.new [(0, ⟨.i64, [3, 1, 2]⟩)]), .appendFieldFrom 0 2 0 0, .newShared 0 0,
+                              .base (.new [(0, ⟨.i64, [7, 8, 9]⟩), (2, ⟨.i64, [7, 8, 9]⟩)])]
+    let s1 := (stepX s0 (.base (.setSel 0 (.idx [0, 1, 2]) 2))).1
+    let s2 := (stepX s1 (.base (.sortBy 0 0 [0, 1, 2]))).1
+    (viewAt s1 1).toOption.map (·.cols) = some [(0, ⟨.i64, [7, 8, 9]⟩)] ∧
+    (viewAt s2 1).toOption.map (·.cols) = some [(0, ⟨.i64, [7, 8, 9]⟩)] ∧
+    (s1.conts.map (·.fields)) = [[(0, 0), (2, 0)], [(0, 0)], [(0, 1), (2, 2)]] ∧
+    (s2.conts.map (·.fields)) = [[(0, 3), (2, 4)], [(0, 0)], [(0, 1), (2, 2)]] := by decide
+
 /-! ### non-vacuity: a concrete history (constructor, indices, append, selection, in-place assignment, sort,
 a raising append) runs through both layers with equal results -/
 
